@@ -112,3 +112,35 @@ Lemma link_cw_calls :
   C01_Gen.cw_writeheader_calls = ["w.Writer.WriteHeader"]%string /\
   C01_Gen.cw_write_calls = ["w.Writer.Write"; "return"]%string.
 Proof. split; reflexivity. Qed.
+
+(* ---- round 4: call sites and context outcomes ---- *)
+(* a stream element: what the generated codes.Acceptable marks is what the statement calls benign; the status
+   of an expired caller deadline is a failure, the status of a cancelled context a success *)
+Lemma ctx_outcomes :
+  (forall cl c, (cl <= 2)%nat -> 0 <= c <= 16 -> m_mark cl c = m_benign cl c) /\
+  (forall c, m_mark 1 c = false) /\ (forall c, m_mark 2 c = true) /\ (forall cl c, (3 <= cl)%nat -> m_mark cl c = false).
+Proof.
+  split; [|split; [|split]].
+  - intros cl c Hcl Hc. unfold m_mark, m_benign, m_code. destruct cl as [|[|[|cl]]]; try lia.
+    + rewrite link_grpc by assumption. reflexivity.
+    + vm_compute. reflexivity.
+    + vm_compute. reflexivity.
+  - intro c. vm_compute. reflexivity.
+  - intro c. vm_compute. reflexivity.
+  - intros cl c H. unfold m_mark, m_code. destruct cl as [|[|[|cl]]]; try lia; try reflexivity.
+Qed.
+
+(* sqlx / redis call sites hand the error to the same generated predicates: benign classes are success marks *)
+Lemma site_benign : forall arg, 0 <= arg ->
+  (benign 7 arg = true -> pred 7 arg = true) /\ (benign 8 arg = true -> pred 8 arg = true).
+Proof.
+  intros arg Ha. split; intro Hb; unfold benign, pred in *.
+  - set (cl := arg mod 100) in *. cbv zeta. rewrite link_sqlx. apply orb_true_iff. left.
+    assert (Hcl : cl = 0 \/ cl = 1 \/ cl = 2 \/ cl = 3).
+    { simpl in Hb. rewrite orb_false_r in Hb. repeat (apply orb_true_iff in Hb as [Hb|Hb]); lia. }
+    destruct Hcl as [-> | [-> | [-> | ->]]]; reflexivity.
+  - rewrite link_redis. set (cl := arg mod 100) in *.
+    assert (Hcl : cl = 0 \/ cl = 3 \/ cl = 4).
+    { simpl in Hb. rewrite orb_false_r in Hb. repeat (apply orb_true_iff in Hb as [Hb|Hb]); lia. }
+    destruct Hcl as [-> | [-> | ->]]; reflexivity.
+Qed.
